@@ -706,7 +706,7 @@ func (r *stRender) render(n *stNode) *etree.Element {
 	var kids []*etree.Element
 	for _, c := range n.Ch {
 		ce := r.render(c)
-		if c.K == "Obj" && r.vr.NoObject {
+		if c.K == "Obj" && r.vr.NoObject && len(c.Ch) > 0 {
 			// XSW-1 / XSW-6 style: content directly under ds:Signature
 			for _, g := range ce.ChildElements() {
 				kids = append(kids, g)
